@@ -59,6 +59,48 @@ class SDecoded(Sym):
         self.raw = raw
 
 
+LINE_BLANK, LINE_PERCENT, LINE_CONTENT = 0, 1, 2
+_line_kind = z3.Function('line_kind', z3.IntSort(), z3.IntSort())
+
+
+class AbsLine(Sym):
+    """A line of a text file known only by its kind (assumed classification, DESIGN 4/C17):
+    BLANK    consists of blanks / tabs / CR / LF only (at least one): fullmatch('[ \\t\\r\\n]+')
+    PERCENT  first character is '%'
+    CONTENT  anything else that is not empty and contains no comment opener ('; ' or '{ ')
+    id is the line's identity (an Int term); the kind is line_kind(id)."""
+    __slots__ = ('id',)
+
+    def __init__(self, id_term):
+        self.id = id_term
+
+    def kind(self):
+        return _line_kind(T(self.id))
+
+
+class AbsFirstChar(Sym):
+    __slots__ = ('line',)
+
+    def __init__(self, line):
+        self.line = line
+
+
+class LineElem:
+    """Element descriptor for Seq(...) of abstract lines."""
+
+    def wrap(self, t):
+        return AbsLine(mk_int(t))
+
+    def unwrap(self, v):
+        return T(v.id)
+
+    def typ(self, t):
+        return z3.And(_line_kind(t) >= 0, _line_kind(t) <= 2)
+
+    def default(self):
+        return AbsLine(0)
+
+
 class JDump(Sym):
     """json.dumps(v): the JSON text of the value v (assumed law: json.loads(json.dumps(v)) == v
     for JSON-able v with str keys; the text contains no line break since indent=None)."""
